@@ -12,6 +12,10 @@ pub fn isa_pool() -> &'static [&'static str] {
     POOL.get_or_init(|| {
         let mut v: Vec<&'static str> = Vec::new();
         let base = "rv64imafdch_zicsr_zifencei_zba_zbb_zbc_zbs_sstc_svinval_svnapot_svpbmt_zicbom_zicbop_zicboz_";
+        // strings whose byte length differs from their character count (multi-byte UTF-8)
+        for s in ["rv64\u{e9}", "\u{b5}", "rv64imafdc_\u{4e2d}\u{6587}", "\u{1f600}x", "ab\u{e9}cd\u{e9}"] {
+            v.push(Box::leak(s.to_string().into_boxed_str()));
+        }
         for n in [0usize, 1, 2, 3, 4, 5, 10, 11, 62, 63, 64, 117, 118, 245, 246, 247, 248, 249, 300, 301, 1000, 1001] {
             let s: String = base.chars().cycle().take(n).collect();
             v.push(Box::leak(s.into_boxed_str()));
@@ -198,15 +202,17 @@ pub fn gen_op(kind: Kind, r: &mut Rng, st: &mut GenState) -> Option<Op> {
         Kind::Hmat => match r.below(3) {
             0 => Op::Mpda { initiator: r.u32b(), memory: r.u32b() },
             1 => {
-                let ni = small_or_big(r, 4, &[7, 12]) as usize;
-                let nt = small_or_big(r, 4, &[6, 11]) as usize;
+                // occasionally a structure larger than 64 KiB (its length field is 32 bits wide)
+                let huge = r.chance(1, 60);
+                let ni = if huge { 150 + r.usize_below(80) } else { small_or_big(r, 4, &[7, 12]) as usize };
+                let nt = if huge { 150 + r.usize_below(80) } else { small_or_big(r, 4, &[6, 11]) as usize };
                 let inits = (0..r.below(ni as u64 + 1)).map(|_| (r.usize_below(ni), r.u32b())).collect();
                 let targs = (0..r.below(nt as u64 + 1)).map(|_| (r.usize_below(nt), r.u32b())).collect();
                 let cells = if ni * nt > 0 { (0..r.below(2 * (ni * nt) as u64 + 1)).map(|_| (r.usize_below(ni), r.usize_below(nt), r.u16b())).collect() } else { vec![] };
                 Op::Sllbi { loc: r.below(4) as u8, data: r.below(6) as u8, mts: r.below(12) as u8, base_unit: r.u64b(), ni, nt, inits, targs, cells, flags: gen_opts(r, 2) }
             }
             _ => {
-                let nh = small_or_big(r, 5, &[111, 112, 113, 300]);
+                let nh = small_or_big(r, 5, &[111, 112, 113, 300, 32751, 32752, 32753, 65535]);
                 Op::Msc {
                     pd: r.u32b(),
                     size: r.u64b(),
@@ -300,7 +306,13 @@ pub fn gen_op(kind: Kind, r: &mut Rng, st: &mut GenState) -> Option<Op> {
             }
             _ => {
                 let nl = small_or_big(r, 12, &[242, 243, 244, 245]);
-                let name: String = (0..nl).map(|_| (b'A' + r.below(26) as u8) as char).collect();
+                let mut name: String = (0..nl).map(|_| (b'A' + r.below(26) as u8) as char).collect();
+                match r.below(24) {
+                    0 => name.push('\u{e9}'),     // multi-byte character: byte length != character count
+                    1 => name.insert(0, '\u{4e2d}'),
+                    2 => name.push('\0'),          // caller-supplied terminator
+                    _ => {}
+                }
                 Op::Platform { id: r.u16b(), name, maps: gen_maps(r, st, 3) }
             }
         },
